@@ -568,6 +568,31 @@ func (c *cluster) round(seed int64, r int) {
 			return
 		}
 	}
+	// C17, one-sided: a node that has not applied a session's creation yet must never answer "no such session"
+	for k := 0; k < 6; k++ {
+		fresh := c.createSession(rng)
+		if fresh == nil {
+			break
+		}
+		for _, n := range c.nodes {
+			body, _ := json.Marshal(struct {
+				Data            string
+				ClientMessageId uint64
+			}{"PING x", nextCm()})
+			code, b, err := c.do(n, "POST", "/robustirc/v1/"+fresh.Id+"/message", map[string]string{"X-Session-Auth": fresh.Auth, "Content-Type": "application/json"}, body, 5*time.Second)
+			if err == nil && code == 404 {
+				viol("C17", "api:live-session-reported-gone", fmt.Sprintf("POST for a session created a moment ago answered 404 by node %d: %.80s", n.idx, b), nil)
+			}
+			ctx, cancel := context.WithTimeout(context.Background(), 300*time.Millisecond)
+			gcode, _ := c.read(ctx, n, fresh, "0.0", func(m msg) bool { return true })
+			cancel()
+			if gcode == 404 {
+				viol("C17", "api:live-session-reported-gone", fmt.Sprintf("GET /messages for a session created a moment ago answered 404 by node %d", n.idx), nil)
+			}
+			rep.Case(fmt.Sprintf("fresh-session-lookup|node%d|post=%d|get=%d", n.idx, code, gcode), 2)
+			rep.Obs("fresh-session-lookups", 2)
+		}
+	}
 	perSender := 20
 	ops := make([][]*op, nS)
 	deadline := time.Now().Add(150 * time.Second)
